@@ -66,3 +66,29 @@ def leConst (a : EDict) (c : Coef) : ConsD := ⟨EDict.subConst a c, false⟩
 def geConst (a : EDict) (c : Coef) : ConsD := leConst (EDict.neg a) (-c)
 def eqConst (a : EDict) (c : Coef) : ConsD := ⟨EDict.subConst a c, true⟩
 end ConsD
+
+/-! ## `symmetrize_dict` and the last lines of `PEP.check_feasibility` -/
+
+/-- reversed tuple key (`key[::-1]`); other keys unchanged -/
+def EKey.swap : EKey → EKey
+  | .ip i j => .ip j i
+  | k => k
+
+/-- `symmetrize_dict`: merge with the key-reversed dictionary, then halve every value -/
+def EDict.symmetrize (d : EDict) : EDict :=
+  Dict.scale (Dict.merge d (d.map (fun kc => (kc.1.swap, kc.2)))) (1 / 2)
+
+def Coef.absv (c : Coef) : Coef := if c < 0 then -c else c
+
+/-- the end of `check_feasibility`: `d = prune(symmetrize(objective − combination))`; the returned dual
+value is `d[1]` (0 if absent), `remaining_terms` is the sum of the absolute values of the other entries -/
+def EDict.finishReconstruction (ident : EDict) : Coef × Coef :=
+  let d := Dict.prune (EDict.symmetrize ident)
+  ((d.get? EKey.one).getD 0, (d.filter (fun kc => kc.1 != EKey.one)).foldl (fun a kc => a + Coef.absv kc.2) 0)
+
+/-- what the source actually prints as `remaining_terms`: the comprehension filters with `key != 1`, and
+for a leaf `Expression` key Python evaluates `not (key == 1)` where `Expression.__eq__` returns a (truthy)
+`Constraint` — so function-value entries are silently left out and only inner-product entries are summed -/
+def EDict.remainingAsPrinted (ident : EDict) : Coef :=
+  let d := Dict.prune (EDict.symmetrize ident)
+  (d.filter (fun kc => match kc.1 with | .ip _ _ => true | _ => false)).foldl (fun a kc => a + Coef.absv kc.2) 0
